@@ -38,6 +38,7 @@ const (
 	vSigAbsent = 0
 	vSigValid  = 1
 	vSigBadKey = 2 // commit flag, but signed with a key that is not the validator's
+	vSigNil    = 3 // a validly signed precommit for nil (the validator did not sign this block)
 )
 
 type vMisbHeaderSpec struct {
@@ -93,6 +94,8 @@ func vMisbHeader(hs vMisbHeaderSpec, signChain string, keyIdent []int, powers []
 	for j := 0; j < n; j++ {
 		if hs.sig[j] == vSigAbsent {
 			commit.Signatures = append(commit.Signatures, tmtypes.NewCommitSigAbsent())
+		} else if hs.sig[j] == vSigNil {
+			commit.Signatures = append(commit.Signatures, tmtypes.CommitSig{BlockIDFlag: tmtypes.BlockIDFlagNil, ValidatorAddress: tmtypes.Address(vConsAddr(keyIdent[j])), Timestamp: t})
 		} else {
 			commit.Signatures = append(commit.Signatures, tmtypes.CommitSig{BlockIDFlag: tmtypes.BlockIDFlagCommit, ValidatorAddress: tmtypes.Address(vConsAddr(keyIdent[j])), Timestamp: t})
 		}
@@ -162,14 +165,14 @@ func VerifC07Misbehaviour() {
 	// signatures
 	sig1, sig2 := make([]int, nv), make([]int, nv)
 	if defect == 0 {
-		for j := 0; j < nv; j++ {
-			hi := vSigBadKey
-			if j == 2 {
-				hi = vSigValid
-			}
-			sig1[j] = vh.ConcretizeInt(vh.Int(vh.Sprintf("sig1_%d", j)), 0, hi)
-			sig2[j] = vh.ConcretizeInt(vh.Int(vh.Sprintf("sig2_%d", j)), 0, hi)
+		for j := 0; j < 2; j++ {
+			sig1[j] = vh.ConcretizeInt(vh.Int(vh.Sprintf("sig1_%d", j)), 0, vSigBadKey)
+			sig2[j] = vh.ConcretizeInt(vh.Int(vh.Sprintf("sig2_%d", j)), 0, vSigBadKey)
 		}
+		// validator 2: absent on both, signs both, signs one block and precommits nil for the other, signs only one
+		pat := [][2]int{{vSigAbsent, vSigAbsent}, {vSigValid, vSigValid}, {vSigValid, vSigNil}, {vSigNil, vSigValid}, {vSigValid, vSigAbsent}}
+		p2 := vh.ConcretizeInt(vh.Int("sig_pattern_2"), 0, len(pat)-1)
+		sig1[2], sig2[2] = pat[p2][0], pat[p2][1]
 	} else {
 		for j := 0; j < nv; j++ {
 			sig1[j], sig2[j] = vSigValid, vSigValid
@@ -260,7 +263,9 @@ func VerifC07Misbehaviour() {
 	both := make([]bool, nv)
 	anyBad := false
 	for j := 0; j < nv; j++ {
-		both[j] = kind != 2 && sig1[j] != vSigAbsent && sig2[j] != vSigAbsent
+		// a signer of both headers put a commit signature on both blocks; a precommit for nil is
+		// not a signature for the block
+		both[j] = kind != 2 && (sig1[j] == vSigValid || sig1[j] == vSigBadKey) && (sig2[j] == vSigValid || sig2[j] == vSigBadKey)
 		if both[j] && (sig1[j] == vSigBadKey || sig2[j] == vSigBadKey) {
 			anyBad = true
 		}
